@@ -52,8 +52,23 @@ func TestReplay(t *testing.T) {
 		r := &kgo.Record{}
 		dup := false
 		seen := map[string]bool{}
+		// every second behaviour lays the header values out the way a consumed record has them: slices of one shared
+		// buffer with spare capacity behind them; and a twin record shares the value bytes (a cloned header list)
+		var shared []byte
+		if bi%2 == 1 {
+			for _, h := range b.Init {
+				shared = append(shared, h.V...)
+			}
+			shared = append(shared, "tail-of-the-fetch-buffer"...)
+		}
+		pos := 0
 		for _, h := range b.Init {
-			r.Headers = append(r.Headers, kgo.RecordHeader{Key: h.K, Value: []byte(h.V)})
+			val := []byte(h.V)
+			if shared != nil {
+				val = shared[pos : pos+len(h.V)] // capacity runs to the end of the buffer
+				pos += len(h.V)
+			}
+			r.Headers = append(r.Headers, kgo.RecordHeader{Key: h.K, Value: val})
 			if seen[h.K] {
 				dup = true
 			}
@@ -62,6 +77,7 @@ func TestReplay(t *testing.T) {
 		if dup {
 			nontrivial++
 		}
+		twin := &kgo.Record{Headers: append([]kgo.RecordHeader(nil), r.Headers...)}
 		c := kotel.NewRecordCarrier(r)
 		for si, o := range b.Ops {
 			steps++
@@ -89,6 +105,13 @@ func TestReplay(t *testing.T) {
 			}
 			if bad == "" && len(ks)+len(o.Keys) > 0 && (!reflect.DeepEqual(ks, o.Keys) || !reflect.DeepEqual(vs, o.Vals)) {
 				bad = fmt.Sprintf("after %s(%s,%s) headers are %v=%v, spec state %v=%v", o.Op, o.K, o.V, ks, vs, o.Keys, o.Vals)
+			}
+			if bad == "" {
+				for i, h := range twin.Headers { // the other record never went through the carrier: nothing of it may change
+					if string(h.Value) != b.Init[i].V {
+						bad = fmt.Sprintf("after %s(%s,%s) a header of ANOTHER record sharing the value bytes changed: %s=%q, was %q", o.Op, o.K, o.V, h.Key, h.Value, b.Init[i].V)
+					}
+				}
 			}
 			if bad != "" {
 				nviol++
